@@ -99,11 +99,19 @@ def verify_case(con: C.Contract, case: C.Case, timeout_ms=10000) -> CaseReport:
                 ctx.prove(rep.oid("post.raises"), False, real="returned " + repr(real[1])[:120], spec=str(spec[1]))
         else:
             if real[0] == "raise":
-                ctx.prove(rep.oid("post.noraise"), False, real="raised " + str(real[1]), spec=repr(spec[1])[:120])
+                mr = getattr(case, "may_reject", None)
+                if mr is not None and isinstance(real[1], type) and issubclass(real[1], mr):
+                    # the contract allows a compile-time rejection here
+                    ctx.rejected_paths = getattr(ctx, "rejected_paths", 0) + 1
+                    ctx.prove(rep.oid("post.value"), True)
+                else:
+                    ctx.prove(rep.oid("post.noraise"), False, real="raised " + str(real[1]), spec=repr(spec[1])[:120])
             else:
                 sv = spec[1]
                 if isinstance(sv, C.Effect):
                     for idx, post in sv.post.items():
+                        if not getattr(case, "symbolic_effects", True):
+                            continue  # effect is bit-level: bounded native check only
                         ctx.prove(rep.oid(f"post.effect{idx}"), C.veq(it, args1[idx], post), real=repr(args1[idx])[:160], spec=repr(post)[:160])
                     sv = sv.result
                 ctx.prove(rep.oid("post.value"), C.veq(it, real[1], sv), real=repr(real[1])[:200], spec=repr(sv)[:200])
@@ -127,6 +135,7 @@ def verify_case(con: C.Contract, case: C.Case, timeout_ms=10000) -> CaseReport:
         rep.paths += 1
         rep.solver_secs += o.ctx.solver_secs
         rep.axioms |= o.ctx.axioms_used
+        rep.rejected_paths = getattr(rep, "rejected_paths", 0) + getattr(o.ctx, "rejected_paths", 0)
         if o.kind == "raise":
             # exception escaped outside of the compared region (spec code itself)
             rep.status = "error"
@@ -167,7 +176,9 @@ def match_real(spec, real) -> bool:
     if spec is C.ANY:
         return True
     if isinstance(spec, C.Pred):
-        return True  # predicates over symbolic values are not evaluated natively
+        if spec.native is not None:
+            return bool(spec.native(real))
+        return True  # predicate has no native counterpart
     if isinstance(spec, bool):
         return type(real) is bool and real == spec
     if isinstance(spec, int):
@@ -237,7 +248,8 @@ def run_native_once(con, case, asg, ns):
         ok = rv[0] == "raise" and issubclass(rv[1], sv[1])
     else:
         if rv[0] == "raise":
-            ok = False
+            mr = getattr(case, "may_reject", None)
+            ok = mr is not None and issubclass(rv[1], mr)
         else:
             want = sv[1]
             if isinstance(want, C.Effect):
